@@ -1,4 +1,4 @@
-// POSITIVE EXAMPLE (deliberately broken copy): R04a (unmatched broadcast), R04b (rank-dependent return), R04c (floor stride), R04d (address order), R04h (prefix state in a slice) must fire
+// POSITIVE EXAMPLE (deliberately broken copy): R04a (unmatched broadcast), R04b (rank-dependent return), R04c (floor stride), R04d (address order), R04h (prefix state in a slice), R04j (rank from a fresh communicator) must fire
 #ifndef PARMCB_MPI_SVA_SIGNED_HPP_
 #define PARMCB_MPI_SVA_SIGNED_HPP_
 
@@ -155,7 +155,7 @@ namespace parmcb {
                 // split implicitly all vertices
                 std::vector<Vertex> localVertices;
                 std::size_t stride = ceil((double) (allVertices.size() / world.size()));
-                std::size_t istart = world.rank() * stride;
+                std::size_t istart = boost::mpi::communicator().rank() * stride;   // R04j positive: world rank, collectives run on `world` parameter
                 std::size_t iend = istart + stride;
                 std::size_t total = allVertices.size();
                 for (std::size_t i = istart; i < iend && i < total; i++) {
